@@ -23,7 +23,9 @@ Init == cfg = <<>> /\ st = MetaInit /\ hist = <<>> /\ n = 0
 AddEntry == \E nm \in Names, d \in BOOLEAN, fs \in FileSets :
               /\ \A i \in 1..Len(cfg) : cfg[i].name # nm
               /\ cfg' = Append(cfg, [name |-> nm, dir |-> d, files |-> IF d THEN fs ELSE {}])
-Call == \E i \in 1..NM, v \in Values :
+\* each entry is read at most once in an emitted history (whether a second read appends or
+\* replaces is not fixed by C20; the machine appends, as the code does)
+Call == \E i \in {j \in 1..NM : \A h \in 1..Len(hist) : hist[h].e # j}, v \in Values :
           LET r == ReadMetadata(st, i, v) IN
           /\ st' = r[1]
           /\ hist' = Append(hist, [e |-> i, v |-> v, ret |-> r[2], st |-> r[1], valid |-> IF IsValid(r[1]) THEN "T" ELSE "F"])
